@@ -110,10 +110,17 @@ def gen_merge_history(r, cid):
     mc = CONFIGS[cid][0]
     ops = []
     n1 = r.range(1, 6 * mc + 4); n2 = r.range(1, 6 * mc + 4)
-    kind = r.below(4)
-    base2 = {0: 10000, 1: -10000, 2: 0, 3: 3}[kind]
-    for j in range(n1): ops.append('i%d' % (20000 + (j * 3 if r.chance(3, 4) else r.below(3 * n1))))
-    for j in range(n2): ops.append('bi%d' % (20000 + base2 + (j * 3 if r.chance(3, 4) else r.below(3 * n2))))
+    kind = r.below(6)
+    if kind >= 4:
+        # ordered blocks that share an equivalent boundary key (either side may be the source): the fast-path tests
+        lo = [20000 + r.below(300) for _ in range(n1)] + [20300] * r.range(1, 3)
+        hi = [20300] * r.range(1, 3) + [20300 + r.below(300) for _ in range(n2)]
+        a, b = (lo, hi) if kind == 4 else (hi, lo)
+        ops += ['i%d' % k for k in a] + ['bi%d' % k for k in b]
+    else:
+        base2 = {0: 10000, 1: -10000, 2: 0, 3: 3}[kind]
+        for j in range(n1): ops.append('i%d' % (20000 + (j * 3 if r.chance(3, 4) else r.below(3 * n1))))
+        for j in range(n2): ops.append('bi%d' % (20000 + base2 + (j * 3 if r.chance(3, 4) else r.below(3 * n2))))
     for _ in range(r.below(4)): ops.append(r.choice(['r0', 'br0', 'r1000000007', 'br1000000007', 'r%d' % r.below(50)]))
     ops += ['s', 'bs', r.choice(['u', 'v', 'bu', 'bv']), 't', 'bt', 's', 'bs']
     for _ in range(r.below(10)):
@@ -141,23 +148,31 @@ def gen_separator_history(r, cid):
     return head(cid) + ' ' + ' '.join(ops + ['t'])
 
 def gen_merge_modelled(r, cid):
-    """two interleaved key sets (so MergeTo takes the generic or the linear path, both modelled), merged once, then
-    single-container traffic on both sides; also merges into / from an empty container (the swap shortcut)"""
+    """two key sets - interleaved (generic / linear path), ordered either way (pvMergeFast, trees of equal and of
+    different heights, full and non-full nodes on the joining edge), ordered with an equivalent boundary key, or one
+    side empty (swap shortcut) - merged, then single-container traffic and possibly further merges"""
     mc, st, bc, lin, multi, _, _ = CONFIGS[cid]
-    kind = r.below(6)
+    kind = r.below(10)
     base = 20000
-    a = [base + 1, base + 1000]; b = [base + 2, base + 999]
-    na = r.choice([0, 1, 3, 8, 3 * mc + 2, 40]); nb = r.choice([0, 1, 3, 8, 3 * mc + 2, 40, 200 if mc <= 8 else 600])
-    span = r.choice([30, 1000]) if multi else 1000
-    a += [base + 3 + r.below(span) for _ in range(na)]; b += [base + 3 + r.below(span) for _ in range(nb)]
-    if kind == 0: a = []
-    if kind == 1: b = []
+    sizes = [min(x, 150 if mc <= 8 else 560) for x in [0, 1, 2, 3, mc, mc + 1, 2 * mc + 1, 3 * mc + 2, (mc + 1) * (mc + 1), 40, 120]]
+    na = r.choice(sizes); nb = r.choice(sizes)
+    if kind <= 3:       # interleaved
+        a = [base + 1, base + 1000] + [base + 3 + r.below(r.choice([30, 1000]) if multi else 1000) for _ in range(na)]
+        b = [base + 2, base + 999] + [base + 3 + r.below(r.choice([30, 1000]) if multi else 1000) for _ in range(nb)]
+    elif kind <= 6:     # a entirely before b (strictly), fast path in one of the two directions
+        a = [base + r.below(400) for _ in range(na + 1)]; b = [base + 500 + r.below(400) for _ in range(nb + 1)]
+    elif kind == 7:     # equivalent boundary key
+        a = [base + r.below(400) for _ in range(na)] + [base + 400]; b = [base + 400] + [base + 400 + r.below(400) for _ in range(nb)]
+    elif kind == 8: a = []; b = [base + r.below(900) for _ in range(nb + 1)]
+    else: b = []; a = [base + r.below(900) for _ in range(na + 1)]
+    if r.chance(1, 2): a, b = b, a
     ops = ['i%d' % k for k in a] + ['bi%d' % k for k in b]
     r.shuffle(ops)
     ops += ['s', 'bs', r.choice(['u', 'v', 'bu', 'bv']), 't', 'bt', 's', 'bs']
-    for _ in range(r.below(12)):
+    for _ in range(r.below(14)):
         k = base + r.below(1100)
-        ops.append(r.choice(['i%d' % k, 'bi%d' % k, 'r%d' % r.below(60), 'br%d' % r.below(60), 'q%d' % k, 'bq%d' % k, 'w']))
+        ops.append(r.choice(['i%d' % k, 'bi%d' % k, 'r%d' % r.below(60), 'br%d' % r.below(60), 'q%d' % k, 'bq%d' % k, 'w',
+                             'u', 'bu', 'v', 'bv', 's', 'bs']))
     ops += ['t', 'bt', 's', 'bs']
     return head(cid) + ' ' + ' '.join(ops)
 
@@ -173,7 +188,7 @@ def gen_cases(ctx, scale, modelled_only):
             nops = r.choice([20, 40, 80, 160]) if mc <= 8 else r.choice([60, 120])
             cases.append(gen_history(r, cid, nops, modelled_only))
         if modelled_only:
-            for _ in range((5 if mc <= 8 else 2) * scale):
+            for _ in range((10 if mc <= 8 else 4) * scale):
                 cases.append(gen_merge_modelled(r, cid))
         if not modelled_only:
             for _ in range(15 * scale):
